@@ -38,6 +38,17 @@ def normalise(value: Decimal):
     return m, e
 
 
+def normalise12(value: Decimal):
+    """Positive decimal -> (four base-1000 limbs of the twelve-digit mantissa, rounded half-up; decimal exponent)."""
+    if value <= 0 or not value.is_finite():
+        return [100, 0, 0, 0], -99
+    e = value.adjusted()
+    m = int((value.scaleb(11 - e)).quantize(Decimal(1), rounding=ROUND_HALF_UP))
+    if m == 10**12:
+        m, e = 10**11, e + 1
+    return [m // 10**9, (m // 10**6) % 1000, (m // 1000) % 1000, m % 1000], e
+
+
 def literal_digits(text: str) -> int:
     """Significant digits of a numeric literal as written (0.529e-10 -> 3, 120.17 -> 5, 298 -> 3)."""
     t = text.lower().replace("_", "")
@@ -112,6 +123,7 @@ def _helpers():
 
 PATH_NAMES = ["scale", "convert_to_si", "convert_to_unit", "expr_symbolic", "expr_evaluated", "evaluate_quantity"]
 HELPER_NAMES = ["evalq_n3", "evalq_chop", "to_si", "expr_eval_n4", "algebra", "print", "long_session"]
+N_HIDS = 5               # relations evaluated with twelve-digit arithmetic (HIdNames)
 N_IDS = 9                # identities / relations of spec/Constants.tla (IdNames)
 LONG_SESSION = 40000     # fresh quantities created by the history step "long_session" (a long interactive session)
 
@@ -181,7 +193,9 @@ def record_tables(hist):
                 problems.append((name, path, f"value read through {path} is {raw}: not a finite real number"))
                 continue
             m, e = normalise(Decimal(str(si)))
-            rows.append({"name": name, "exported": name in exported, "d": dim, "m": m, "e": e, "sig": sig.get(name, 9),
+            hl, he = normalise12(Decimal(str(si)))
+            rows.append({"name": name, "exported": name in exported, "d": dim, "m": m, "e": e, "hl": hl, "he": he,
+                         "sig": sig.get(name, 9),
                          "_value": str(sympy.N(si, 12)), "_dimension": str(q.dimension)})
         tables.append({"hist": list(hist), "path": path, "rows": rows})
     return tables, problems
@@ -256,13 +270,16 @@ def check_recorded(run: Run, sc: Path, tables, label: str = "") -> None:
                                           "rows": [{k: v for k, v in r.items() if not k.startswith("_")} for r in t["rows"]]}
                                          for t in tables]}))
     cfg = write_cfg(sc / f"constants_trace{label}.cfg", init="TInit", next_="TNext",
-                    invariants=["RowVerdict", "IdVerdict", "Unmatched"])
+                    invariants=["RowVerdict", "IdVerdict", "HIdVerdict", "Unmatched"])
     res = run_tlc("ConstantsTrace", cfg, sc, workers=1, env={"TRACE_FILE": str(tf)}, allow_violation=False)
     nrows = sum(len(t["rows"]) for t in tables)
     run.add_tlc(res, f"recorded constants: {len(tables)} tables (history of helper calls x read path), {nrows} rows and "
                      f"{N_IDS * len(tables)} identity / relation evaluations decided by ConstantsTrace")
     verdicts = {(p["tb"], p["row"]): p for p in res.printed if "row" in p}
     ids = {(p["tb"], p["id"]): p for p in res.printed if "id" in p}
+    hids = {(p["tb"], p["hid"]): p for p in res.printed if "hid" in p}
+    if len(hids) != N_HIDS * len(tables):
+        raise RuntimeError(f"ConstantsTrace gave {len(hids)} twelve-digit relation verdicts for {len(tables)} tables")
     if len(verdicts) != nrows or len(ids) != N_IDS * len(tables):
         raise RuntimeError(f"ConstantsTrace gave {len(verdicts)} row verdicts for {nrows} rows, {len(ids)} identity verdicts")
     bad_plain = set()      # (name or identity, path) already wrong without any prior helper call
@@ -327,6 +344,31 @@ def check_recorded(run: Run, sc: Path, tables, label: str = "") -> None:
                 run.violation(f"identity {idn}{suffix}", f"identity {idn} fails on the library's values{where}: lhs {v['lhs']} vs "
                               f"rhs {v['rhs']}, {v['dist']} units of the 9th digit apart, compared to {v['digits']} digits",
                               {"identity": idn, "hist": t["hist"], "path": t["path"], "verdict": v})
+    # relations in twelve-digit arithmetic
+    for n, t in enumerate(tables, start=1):
+        plain = not t["hist"]
+        suffix = ("" if t["path"] == "scale" else f" via {t['path']}") + ("" if plain else f" after {' '.join(t['hist'])}")
+        for idn in sorted({k[1] for k in hids}):
+            v = hids[(n, idn)]
+            run.traces += 1
+            if not v["evaluated"]:
+                continue
+            run.count(f"relation12 {idn}{suffix}")
+            if v["holds"]:
+                continue
+            if (idn, "scale") in bad_plain or (("h12 " + idn, "scale") in bad_plain and not (plain and t["path"] == "scale")):
+                continue          # already reported at nine digits / for the direct read
+            if plain:
+                bad_plain.add(("h12 " + idn, t["path"]))
+            elif ("h12 " + idn, t["path"]) in bad_plain:
+                continue
+            run.violation(f"relation {idn} at 1e-10{suffix}",
+                          f"the constants are not mutually consistent: relation {idn} evaluated with twelve digits gives lhs "
+                          f"{v['lhs']} vs rhs {v['rhs']}, {v['dist']} units of the 12th digit apart; it must hold within "
+                          f"{v['q']}e-10 relative (the precision to which the constants involved are known)",
+                          {"identity": idn, "hist": t["hist"], "path": t["path"], "verdict": v})
+    run.coverage["relation_margins_12_digits"] = {
+        k[1]: {"distance_in_12th_digit": v.get("dist"), "tolerance_1e-10": v.get("q")} for k, v in hids.items() if k[0] == 1}
     run.coverage["identity_margins_on_library_values"] = {
         k[1]: {"distance_in_9th_digit": v.get("dist"), "compared_to_digits": v.get("digits")} for k, v in ids.items() if k[0] == 1}
     un = next((p["unmatched"] for p in res.printed if "unmatched" in p), [])
